@@ -184,8 +184,9 @@ type jobRec struct {
 	starts  atomic.Int32
 	start   atomic.Int64
 	end     atomic.Int64
-	outcome atomic.Int32 // 0 none, 1 ok, 2 err, 3 goexit
-	ctxOK   atomic.Int32 // 1 ctx carried the marker it was enqueued with, 2 it did not
+	outcome atomic.Int32              // 0 none, 1 ok, 2 err, 3 goexit
+	depsArg []*scheduler.ScheduledJob // the slice handed to Enqueue
+	ctxOK   atomic.Int32              // 1 ctx carried the marker it was enqueued with, 2 it did not
 	enqCall int64
 	enqRet  int64
 	held    atomic.Bool // the worker holding this job saw cancel() return before it looked at the job's context
@@ -698,9 +699,14 @@ func (x *Exec) enqueue(s *scheduler.Scheduler, i int) {
 	r := &x.recs[i]
 	x.pace(i)
 	var deps []*scheduler.ScheduledJob
-	for _, d := range spec.Deps {
-		deps = append(deps, x.recs[d].sj)
+	if spec.ShareDeps && i > 0 && len(x.recs[i-1].depsArg) == len(spec.Deps)+1 {
+		deps = x.recs[i-1].depsArg[1:] // same backing array as the previous Enqueue's argument
+	} else {
+		for _, d := range spec.Deps {
+			deps = append(deps, x.recs[d].sj)
+		}
 	}
+	r.depsArg = deps
 	ctx := x.ctx
 	if spec.OtherCtx {
 		ctx = x.otherCtx
